@@ -30,16 +30,24 @@ def ctm(j):
     raise ValueError(j)
 
 
+def L(items):
+    """Coq list without the (slow to parse when nested) list notation."""
+    out = "nil"
+    for x in reversed(list(items)):
+        out = f"(cons {x} {out})"
+    return out
+
+
 def clist(l):
-    return "[" + "; ".join(ctm(x) for x in l) + "]"
+    return L(ctm(x) for x in l)
 
 
 def colist(l):
-    return "[" + "; ".join("None" if x is None else f"Some {ctm(x)}" for x in l) + "]"
+    return L("None" if x is None else f"(Some {ctm(x)})" for x in l)
 
 
 def cflags(l):
-    return "[" + "; ".join({0: "FNo", 1: "FInout", 2: "FOwned", 4: "FComptime"}[f] for f in l) + "]"
+    return L({0: "FNo", 1: "FInout", 2: "FOwned", 4: "FComptime"}[f] for f in l)
 
 
 def cparam(p):
@@ -49,7 +57,7 @@ def cparam(p):
 
 
 def cparams(ps):
-    return "[" + "; ".join(cparam(p) for p in ps) + "]"
+    return L(cparam(p) for p in ps)
 
 
 def cfty(f):
